@@ -347,7 +347,9 @@ func (g *gen) genFunc(typ *types.Signature) error {
 			p.P("if %s(v.in, in) {", g.equal.GetFuncName(paramStruct, paramStruct))
 		}
 		p.In()
-		if len(resTypes) == 1 {
+		if len(resTypes) == 0 {
+			p.P("return")
+		} else if len(resTypes) == 1 {
 			p.P("return v.out")
 		} else {
 			p.P("return %s", strings.Join(vars("v.out.Res", typ.Results().Len()), ", "))
@@ -358,6 +360,21 @@ func (g *gen) genFunc(typ *types.Signature) error {
 		p.P("}")
 		p.Out()
 		p.P("}")
+		if len(resTypes) == 0 {
+			// nothing to remember but the arguments themselves
+			p.P("f(%s)", strings.Join(paramVars, ", "))
+			if len(paramTypes) == 1 {
+				p.P("m[h] = append(m[h], mem{%s})", paramVars[0])
+			} else {
+				p.P("m[h] = append(m[h], mem{in})")
+			}
+			p.P("return")
+			p.Out()
+			p.P("}")
+			p.Out()
+			p.P("}")
+			return nil
+		}
 		p.P("%s := f(%s)", strings.Join(resVars, ", "), strings.Join(paramVars, ", "))
 		if len(resTypes) == 1 {
 			if len(paramTypes) == 1 {
